@@ -1,51 +1,12 @@
-import EaselModel.Generated.Dist
-/-! Hand model (kind H) of the mixture code: `esl_hxp_*` (hyperexponential: components `exp(μ, λ_k)`, coefficients `q_k`)
-    and `esl_mixgev_*` (components `GEV(μ_k, λ_k, α_k)`), including `esl_vec_DMax` / `esl_vec_DLogSum` which the log
-    versions go through.  The short C loops are `List.foldl`s in the same order with the same accumulator; the component
-    functions are the TRANSLATED `esl_exp_*` / `esl_gev_*`.  Tied by the bit-exact correspondence run (`mix`, `mixsample`).
+import EaselModel.Dist.Num
+/-! Hand model (kind H) of the component choice of the mixture samplers `esl_hxp_Sample` / `esl_mixgev_Sample`
+    (`esl_rnd_DChoose`).  Everything else of the mixture code — `esl_hxp_*`, `esl_mixgev_*`, `esl_vec_DMax/DMin/DLogSum` —
+    is TRANSLATED since round 3 (`Generated/Dist.lean`; theorems in `Dist/MixGen.lean`, `Dist/MixLogGen.lean`).
     Core Lean only. -/
 namespace EaselModel.Dist.Mix
-open EaselModel.Dist EaselModel.Dist.Gen
+open EaselModel.Dist
 variable {α : Type} [Add α] [Sub α] [Mul α] [Div α] [Neg α] [OfScientific α] [LT α] [LE α]
   [DecidableLT α] [DecidableLE α] [Num α]
-
-/-- `esl_vec_DMax` (n ≥ 1) -/
-def dmax : List α → α
-  | [] => 0.0
-  | v :: vs => vs.foldl (fun best w => if best < w then w else best) v
-
-/-- `esl_vec_DLogSum` -/
-def dlogsum (vec : List α) : α :=
-  let max := dmax vec
-  if Num.eqb max Num.inf = true then Num.inf
-  else
-    let sum := vec.foldl (fun s v => if (max - 500.0) < v then s + Num.exp (v - max) else s) (0.0 : α)
-    Num.log sum + max
-
-/-- `pdf += q[k] * f(x, …[k])` over the components, starting from `0.` -/
-def wsum (f : β → α) (qs : List (α × β)) : α := qs.foldl (fun acc qp => acc + qp.1 * f qp.2) (0.0 : α)
-
-/-- `wrk[k] = (q[k] == 0.0) ? -inf : log(q[k]) + f(…)` then `esl_vec_DLogSum(wrk)` -/
-def lsum (f : β → α) (qs : List (α × β)) : α :=
-  dlogsum (qs.map fun qp => if Num.eqb qp.1 0.0 = true then -Num.inf else Num.log qp.1 + f qp.2)
-
-/-! hyperexponential: `qs` = `[(q_k, λ_k)]` -/
-def hxp_pdf (x mu : α) (qs : List (α × α)) : α := if x < mu then 0.0 else wsum (fun l => esl_exp_pdf x mu l) qs
-def hxp_cdf (x mu : α) (qs : List (α × α)) : α := if x < mu then 0.0 else wsum (fun l => esl_exp_cdf x mu l) qs
-def hxp_surv (x mu : α) (qs : List (α × α)) : α := if x < mu then 1.0 else wsum (fun l => esl_exp_surv x mu l) qs
-def hxp_logpdf (x mu : α) (qs : List (α × α)) : α := if x < mu then -Num.inf else lsum (fun l => esl_exp_logpdf x mu l) qs
-def hxp_logcdf (x mu : α) (qs : List (α × α)) : α := if x < mu then -Num.inf else lsum (fun l => esl_exp_logcdf x mu l) qs
-def hxp_logsurv (x mu : α) (qs : List (α × α)) : α := if x < mu then 0.0 else lsum (fun l => esl_exp_logsurv x mu l) qs
-
-/-! mixture of GEVs: `qs` = `[(q_k, (μ_k, λ_k, α_k))]` -/
-def mixgev_pdf (x : α) (qs : List (α × (α × α × α))) : α := wsum (fun p => esl_gev_pdf x p.1 p.2.1 p.2.2) qs
-def mixgev_cdf (x : α) (qs : List (α × (α × α × α))) : α := wsum (fun p => esl_gev_cdf x p.1 p.2.1 p.2.2) qs
-def mixgev_surv (x : α) (qs : List (α × (α × α × α))) : α := wsum (fun p => esl_gev_surv x p.1 p.2.1 p.2.2) qs
-def mixgev_logpdf (x : α) (qs : List (α × (α × α × α))) : α := lsum (fun p => esl_gev_logpdf x p.1 p.2.1 p.2.2) qs
-def mixgev_logcdf (x : α) (qs : List (α × (α × α × α))) : α := lsum (fun p => esl_gev_logcdf x p.1 p.2.1 p.2.2) qs
-/-- `esl_mixgev_logsurv` has no `q == 0` guard: `wrk[k] = log(q[k]); wrk[k] += logsurv` -/
-def mixgev_logsurv (x : α) (qs : List (α × (α × α × α))) : α :=
-  dlogsum (qs.map fun qp => Num.log qp.1 + esl_gev_logsurv x qp.2.1 qp.2.2.1 qp.2.2.2)
 
 /-- `esl_rnd_DChoose(r, p, N)` given the deviate `roll = esl_random(r)`: index of the chosen component -/
 def dchoose (roll : α) (p : List α) : Option Nat :=
